@@ -39,30 +39,7 @@ func main() {
 
 // ---------------------------------------------------------------- file sources
 
-var kinds = append(append([]string{}, gen.AllSECs()...), "IAT", "ADV", "MIX", "MIX", "BIG")
-
-// genFile builds the idx-th file of a run deterministically from seed.
-func genFile(seed uint64, idx int) (f *ach.File, what string) {
-	r := rng.New(seed*0x9E3779B97F4A7C15 + uint64(idx)*0xD1B54A32D192ED03 + 3)
-	k := kinds[idx%len(kinds)]
-	defer func() {
-		if p := recover(); p != nil {
-			f, what = nil, fmt.Sprintf("%s: generator panic %v", k, p)
-		}
-	}()
-	switch k {
-	case "MIX":
-		return gen.File(r, gen.Opts{IAT: true, Returns: true, NOC: true, Addenda: true, MaxBatches: 4}), k
-	case "BIG":
-		return gen.FileOfSEC(r, rng.Pick(r, []string{ach.PPD, ach.CCD, ach.WEB}), gen.Opts{MinBatches: 1, MaxBatches: 2, MaxEntries: 160 + r.Intn(60), ForwardOnly: true}), k
-	case "IAT":
-		return gen.FileOfSEC(r, "IAT", gen.Opts{IAT: true, Addenda: r.Bool(), MaxBatches: 3}), k
-	case "ADV":
-		return gen.ADVFile(r), k
-	default:
-		return gen.FileOfSEC(r, k, gen.Opts{Addenda: r.Bool(), Returns: r.Chance(1, 4), MaxBatches: 3}), k
-	}
-}
+func genFile(seed uint64, idx int) (*ach.File, string) { return arith.GenFile(seed, idx, false) }
 
 func batchOf(f *ach.File, t arith.Target) (arith.Batch, error) {
 	if t.IAT {
@@ -140,7 +117,9 @@ func corr(args []string) {
 	nper := fs.Int("perturb", 30, "perturbations per file")
 	ncd := fs.Int("cd", 100000, "random check digit cases")
 	only := fs.String("only", "", "restrict perturbation kinds (comma separated), for C04: protected single-field changes")
+	tamper := fs.Bool("tamper", false, "C04: emit only the perturbed cases (no base files, no primitives) and their descriptions (desc.txt)")
 	fs.Parse(args)
+	descs := hx.Create(filepath.Join(*out, "desc.txt"))
 	cases := hx.Create(filepath.Join(*out, "cases.txt"))
 	impl := hx.Create(filepath.Join(*out, "impl.txt"))
 	seed := rng.Seed()
@@ -169,12 +148,14 @@ func corr(args []string) {
 			cases.Printf("B %s\n", sk.Enc())
 			impl.Printf("%s\n", implBatch(g, t))
 		}
-		emitFile(f)
-		for j := range f.Batches {
-			emitBatch(f, arith.Target{IAT: false, Idx: j})
-		}
-		for j := range f.IATBatches {
-			emitBatch(f, arith.Target{IAT: true, Idx: j})
+		if !*tamper {
+			emitFile(f)
+			for j := range f.Batches {
+				emitBatch(f, arith.Target{IAT: false, Idx: j})
+			}
+			for j := range f.IATBatches {
+				emitBatch(f, arith.Target{IAT: true, Idx: j})
+			}
 		}
 		r := rng.New(seed*31 + uint64(i)*977 + 11)
 		for j := 0; j < *nper; j++ {
@@ -191,12 +172,21 @@ func corr(args []string) {
 				continue
 			}
 			stats["perturbed "+what]++
-			_ = desc
 			if bl && (!t.IAT && t.Idx < len(g.Batches) || t.IAT && t.Idx < len(g.IATBatches)) {
 				emitBatch(g, t)
+				descs.Printf("%s file %d: %s (batch)\n", what, i, desc)
 			}
 			emitFile(g)
+			descs.Printf("%s file %d: %s (file)\n", what, i, desc)
 		}
+	}
+	descs.Close()
+	if *tamper {
+		cases.Close()
+		impl.Close()
+		js, _ := json.Marshal(stats)
+		fmt.Println(string(js))
+		return
 	}
 	// primitives
 	for n := 0; n <= 600; n++ {
